@@ -52,7 +52,8 @@ def instance_of(F, cname):
 def field_sequence(sp):
     """ordered [(attr name, 'w32'|'w16'|'obj')] written by a code marshaller"""
     out = []
-    for k, e in flatten_effects(sp.effects):
+    from .c14 import merge_chr_writes
+    for k, e, _ in merge_chr_writes(flatten_effects(sp.effects)):
         if k == "call" and str(e.args[0]) == "WRITE":
             c = classify_write(e.args[1][0])
             if c[0] in ("le32", "le16") and isinstance(c[1], Sym) and c[1].name.startswith("x.co_"):
@@ -121,15 +122,16 @@ def run(rep, tier):
         if writer is None:
             continue
         inst, C = instance_of(F, cname)
-        me = Instance(M)
-        me.attrs.update(_write=Sym("WRITE"), python_version=SERVES[cname][-1])
-        sp = Spec(F, opaque_funcs={"xdis.marsh._Marshaller.dump"})
         w = M.lookup(writer)
         rep.analysed(w.qualname)
-        sp.run(w, [me, inst])
-        seq = field_sequence(sp)
         groups = {}
         for v in SERVES[cname]:
+            # the writer is specialised for each version the class serves (it may consult python_version)
+            me = Instance(M)
+            me.attrs.update(_write=Sym("WRITE"), python_version=v)
+            sp = Spec(F, opaque_funcs={"xdis.marsh._Marshaller.dump"})
+            sp.run(w, [me, inst])
+            seq = field_sequence(sp)
             want = []
             for fname, kind in lay["%d.%d" % v]:
                 if fname == "linetable":
@@ -185,10 +187,15 @@ def run(rep, tier):
                 return False
             if name.endswith("marsh.dumps"):
                 spec.effect("dumps", args[0], node=node)
+                told.append(kw.get("python_version", args[2] if len(args) > 2 else "<not passed: the host's version>"))
                 return Sym("payload", "bytes")
             return NotImplemented
+        told = []
         sp = Spec(F, hooks=[hook])
         sp.run(f, [Sym("path", "str"), Sym("code_obj"), mg], {"compilation_ts": ts, "filesize": size})
+        okv = len(told) == 1 and isinstance(told[0], tuple) and tuple(told[0][:2]) == tuple(version[:2])
+        rep.ob("R2", f.qualname, "magic=%d:marshaller-told-target-version" % mg, okv, expected=list(version[:2]), derived=[show(t_) for t_ in told],
+               msg="write_bytecode_file(magic %d) does not hand Python %d.%d to xdis.marsh.dumps: the marshaller then writes for the host's version" % (mg, version[0], version[1]))
         writes = []
         for k, e in flatten_effects(sp.effects):
             if k == "stream.write" and (not e.guards or all("ts" not in show(g) or show(g) == "ts" for g in e.guards)):
@@ -250,23 +257,27 @@ def run(rep, tier):
            derived=generic or "all through dump_string", where="xdis/marsh.py:%d" % dc2.node.lineno,
            msg="%s of a Python 2 code object go(es) through the generic dump(), which writes a host str as TYPE_UNICODE: Python 2 refuses such a code object "
                "('non-string found in code slot' aborts 2.7)" % ", ".join(generic))
-    # what a Python 2 target needs for the two constant kinds that Python 3 merged: text (str vs unicode) and integers (int vs long)
-    for tn, meth_want in (("str", "TYPE_STRING ('s') for a plain str constant"), ("int", "TYPE_INT ('i') for an integer that fits 32 bits")):
-        disp = Mcls.ns.get("dispatch", {})
-        wr = None
-        for k_, f_ in disp.items():
-            if getattr(k_, "__name__", None) == tn and isinstance(f_, FuncRef):
-                wr = f_
-        if wr is None:
-            rep.ob("R7", "xdis.marsh._Marshaller.dispatch", "py2-target:%s" % tn, False, expected="a writer", derived="none registered")
-            continue
-        tr, _, _ = writer_trace(T, Mcls, wr.name, Sym("v", "str" if tn == "str" else "int"), pyver=(2, 7))
-        first = [a for kind, a, g in tr if kind == "write"][:1]
-        code_ = first[0][1] if first and first[0][0] in ("ascii", "bytes-literal") else (show(first[0]) if first else None)
-        okk = code_ in (("s", "t") if tn == "str" else ("i",))
-        rep.ob("R7", wr.qualname, "py2-target:%s-type-code" % tn, okk, expected=meth_want, derived=code_,
-               msg="written for a Python 2 target, a %s constant gets type code %r: Python 2 loads %s, so the rewritten file is a different program" % (
-                   tn, code_, "a unicode object (u'...')" if tn == "str" else "a long (5L)"))
+    # what a Python 2 target needs for the two constant kinds that Python 3 merged: text (str vs unicode) and integers (int vs long).
+    # The generic dump() is specialised for a concrete value of each kind with python_version (2, 7); the writer it reaches decides the type code.
+    dmp = Mcls.lookup("dump")
+    for tn, val, want_w, meth_want in (("str", "abc", ("dump_string",), "TYPE_STRING ('s') for a plain str constant"),
+                                       ("int", 5, ("dump_int",), "TYPE_INT ('i') for an integer that fits 32 bits")):
+        reached = []
+
+        def hook7(spec, name, fv, args, kw, node):
+            base = name.split(".")[-1]
+            if base.startswith("dump_") and name.startswith("xdis.marsh._Marshaller."):
+                reached.append(base)
+                return None
+            return NotImplemented
+        me7 = Instance(Mcls)
+        me7.attrs.update(_write=Sym("WRITE"), python_version=(2, 7))
+        sp7 = Spec(F, hooks=[hook7])
+        sp7.run(dmp, [me7, val])
+        okk = reached[:1] in [[w_] for w_ in want_w]
+        rep.ob("R7", dmp.qualname, "py2-target:%s-writer" % tn, okk, expected=meth_want, derived=reached[:2],
+               msg="written for a Python 2 target, a %s constant goes to %s: Python 2 loads %s, so the rewritten file is a different program" % (
+                   tn, reached[:1], "a unicode object (u'...')" if tn == "str" else "a long (5L)"))
     # ---------------------------------------------------------------- R5 the reader (shared engine with C01 / C10)
     from ..report import SubReport, merge_sub
     from . import c01
